@@ -55,9 +55,12 @@ FIXED = [
  ("C02", "C02-text-after-closed-tree", "the Newick parser accepted text after an unmatched closing parenthesis", "\"(a))(b;\" was read without error as the tree \"b;\" (also inside a Nexus TREE command) with node ids continuing those of the abandoned first tree; NodeRootDistance() and LTT() on the delivered tree panicked with index out of range"),
  ("C02", "C02-reopened-after-comma", "the Newick parser still started a second tree at level 0", "\"(a,b),(c,d);\", \"()(a,b);\" and \"(a,)(b,c);\" were read without error as the last group only, with node ids continuing those of the abandoned first tree; NodeRootDistance() and LTT() on the delivered tree panicked (second path of C02-text-after-closed-tree: the root popped by a comma or by closing an empty group)"),
  ("C11", "C11-tbe-per-branch-only-panic", "TBE panicked when per-branch transfer tables were requested", "support.TBE with computeperbranchtaxa=true and computeavgtaxa=false (--per-branches without --moved-taxa) panicked with index out of range, with one thread and with several: the per-taxon accumulator was updated although it is only allocated for the per-taxon table (30-tip reference, 4 bootstrap copies)"),
+ ("C09", "C09-nan-threshold-accepted", "Consensus accepted a NaN threshold", "tree.Consensus(trees, NaN) was not refused (the range test is false for NaN): with compatible trees it kept every split regardless of frequency, with ((A,B),C,D);((A,C),B,D); it failed later with 'the group should be monophyletic' instead of the threshold error"),
+ ("C13", "C13-nexus-several-trees-blocks", "the Nexus reader kept only the trees of the last TREES block", "a Nexus file with two TREES blocks: \"#NEXUS BEGIN TREES;TREE t1=(a,b);END;BEGIN TREES;TREE t2=(c,d);END;\" delivered only t2 (id 0) through the parser, ReadMultiTrees and ReadTreeReader, t1 was dropped without an error; a tree followed by an empty TREES block delivered nothing"),
  ("C13", "C13-phyloxml-firsttree-nil", "PhyloXML FirstTree assigned a shadowed", "PhyloXML FirstTree returned (nil, nil): reading 'the first tree' of a PhyloXML file failed with 'No tree in the input PhyloXML file' although the iterator delivers it"),
 ]
 OPEN = [
+ ("C06", "C06-negative-length-clamped-on-merge", "removeTip merges the two branches around a node left with two neighbours as max(0,l1)+max(0,l2): a NEGATIVE branch length is read as 0 (the clamp exists for the -1 'absent' sentinel), so a path length between remaining tips changes: (a:1,(b:-0.5,c:1):2,d:1); pruned of c gives (a:1,d:1,b:2); (a-b path 3 instead of 2.5); the same idiom is in removeSingleNodesRecur and UnRoot; not repaired because the -1 sentinel makes sums of negative lengths ambiguous and the idiom is shared by three operations and their models"),
  ("C20", "C20-uniform-rooted-root-branch", "RandomUniformBinaryTree(n, true) never inserts a tip above the root: 2*4*...*(2n-4) choice vectors for (2n-3)!! rooted labelled topologies; with n=3 the topology ((Tip0,Tip1),Tip2) is never produced (199/201/0 over 400 seeds)"),
  ("C19", "C19-setrand-presence", "`gotree brlen setrand` draws the mean in [min-mean,max-mean] only when BOTH options are present on the command line (cmd.Flags().Changed): passing their documented defaults --min-mean 0.001 --max-mean 0.05 explicitly gives different branch lengths than omitting them"),
  ("C10", "C10-root-branch-beside-tip", "rooted reference whose root has a tip child: the other root branch is an inner branch with a one-taxon side; FBP gives it (bootstrap trees rooted the same way)/n instead of 1 and TBE leaves it without support (-1); witness ref ((a,(b,(c,d)))), boots [(a,b,(c,d))]"),
